@@ -8,6 +8,7 @@ or empty table contributes nothing — `Encode` cannot tell them apart).  Go's i
 maps `appleBCP` / `msBCP` is an explicit order parameter (a permutation of the regenerated table).
 -/
 import SfntV.Model.NamesCodec
+import SfntV.Prelude.Outcome
 import SfntV.Model.NamesPost
 
 namespace SfntV.Names
@@ -166,5 +167,45 @@ def nameDecode (data : List Nat) : Option (List Entry) := nameDecodeWith Gen.app
 def getVal : List Entry → Nat → String → Nat → List Nat
   | [], _, _, _ => []
   | e :: rest, p, t, i => if e.plat = p ∧ e.tag = t ∧ e.id = i then e.val else getVal rest p t i
+
+/-! ### the refusals of `Encode` (repairs ac2ee73, 3d806bb) -/
+
+/-- `(*nameBuilder).Add` does not panic: a string already stored is reused; a new string must
+start at an offset ≤ 0xFFFF and be at most 0xFFFF bytes long -/
+def Builder.addOk (b : Builder) (s : List Nat) : Bool :=
+  match idxGet b.idx s with
+  | some _ => true
+  | none => decide (b.data.length ≤ 65535) && decide (s.length ≤ 65535)
+
+def addTableOk (enc : List Nat → List Nat) : List (Nat × List Nat) → Builder → Bool
+  | [], _ => true
+  | (_, val) :: rest, b => b.addOk (enc val) && addTableOk enc rest (b.add (enc val)).1
+
+def addLangsOk (pid eid : Nat) (enc : List Nat → List Nat) (info : List Entry) :
+    List (Nat × String) → Builder → Bool
+  | [], _ => true
+  | (lang, tag) :: rest, b =>
+    addTableOk enc (tableView info pid tag) b &&
+      addLangsOk pid eid enc info rest (addTable pid eid lang enc (tableView info pid tag) b).1
+
+/-- no call of `Add` panics while the records are built -/
+def nameBuildOk (macOrder winOrder : List (Nat × String)) (info : List Entry) (winEid : Nat) : Bool :=
+  addLangsOk 1 0 macEncode info macOrder ⟨[], []⟩ &&
+    addLangsOk 3 winEid utf16Encode info winOrder (addLangs 1 0 macEncode info macOrder ⟨[], []⟩).1
+
+/-- the table's capacity: every `Add` succeeds and the storage offset `6 + 12·records` is 16-bit -/
+def nameFits (macOrder winOrder : List (Nat × String)) (info : List Entry) (winEid : Nat) : Bool :=
+  nameBuildOk macOrder winOrder info winEid &&
+    decide (6 + 12 * (nameBuild macOrder winOrder info winEid).2.length ≤ 65535)
+
+/-- `(*Info).Encode` with its panics ("string storage too large", "too many name records"):
+the bytes of `nameEncodeWith`, or a loud refusal -/
+def nameEncodeCheckedWith (macOrder winOrder : List (Nat × String)) (info : List Entry) (winEid : Nat) :
+    Outcome (List Nat) :=
+  if nameFits macOrder winOrder info winEid = true then .ok (nameEncodeWith macOrder winOrder info winEid)
+  else .panic "name.Encode"
+
+def nameEncodeChecked (info : List Entry) (winEid : Nat) : Outcome (List Nat) :=
+  nameEncodeCheckedWith (sortLangs Gen.appleBCP) (sortLangs Gen.msBCP) info winEid
 
 end SfntV.Names
